@@ -130,9 +130,39 @@ fn c11_p8_ln_exhaustive() {
     report("c11_p8_ln_exhaustive", "E", r, &[s(0x40), s(0x7f), s(0x01), s(0xc0)]);
 }
 
+// @n name=c03_text_roundtrip_bounded props=C03 fn=Display,FromStr tier=quick t=600 mode=B
+fn c03_text_roundtrip_bounded(seed: u64) {
+    // wiring of Display (= f64 Display) and FromStr (= f64 parse + From<f64>) through the real std code:
+    // every P8E0 and P16E1 pattern, and 2^20 structured P32E2 patterns (all regime lengths x fraction fills, + seeded fill)
+    let r8 = sweep(1 << 8, |x| {
+        let p = P8E0::from_bits(x as u8);
+        (p.to_string().parse::<P8E0>().map(|q| q == p).unwrap_or(false), true)
+    });
+    let r16 = sweep(1 << 16, |x| {
+        let p = P16E1::from_bits(x as u16);
+        (p.to_string().parse::<P16E1>().map(|q| q == p).unwrap_or(false), true)
+    });
+    let r32 = sweep(1 << 20, move |i| {
+        // structured pattern: top 5 bits of i choose a regime length, the rest fills the tail; mixed with the seed
+        let reg = ((i >> 15) & 31).min(29);
+        let tail = (i & 0x7fff).wrapping_mul(0x9E37_79B9_7F4A_7C15 ^ seed.wrapping_mul(0x2545_F491_4F6C_DD1D)) as u32;
+        let body = if i & 1 == 0 { (0x7fff_ffffu32 >> reg) ^ (tail >> (reg + 1)) } else { (0x4000_0000u32 >> reg) | (tail >> (reg + 2)) };
+        let bits = if i & 2 == 0 { body } else { body.wrapping_neg() };
+        let p = P32E2::from_bits(bits);
+        (p.to_string().parse::<P32E2>().map(|q| q == p).unwrap_or(false), true)
+    });
+    let mut fails = r8.2.clone();
+    fails.extend(r16.2.iter().map(|x| x | (1 << 32)));
+    fails.extend(r32.2.iter().map(|x| x | (2 << 32)));
+    let s = |p: P32E2| format!("{:#x} -> '{}' -> {:#x}", p.to_bits(), p.to_string(), p.to_string().parse::<P32E2>().unwrap().to_bits());
+    report("c03_text_roundtrip_bounded", "B", (r8.0 + r16.0 + r32.0, r8.1 + r16.1 + r32.1, fails),
+           &[s(P32E2::from_bits(0x4000_0001)), s(P32E2::NAR), s(P32E2::from_bits(0x8000_0001)), s(P32E2::from_bits(0x0000_0003))]);
+}
+
 fn run(name: &str, _seed: u64) -> bool {
     match name {
         "c06_p32_sqrt_exhaustive" => c06_p32_sqrt_exhaustive(),
+        "c03_text_roundtrip_bounded" => c03_text_roundtrip_bounded(_seed),
         "c11_p16_exp_exhaustive" => c11_p16_exp_exhaustive(),
         "c11_p16_exp2_exhaustive" => c11_p16_exp2_exhaustive(),
         "c11_p16_ln_exhaustive" => c11_p16_ln_exhaustive(),
